@@ -62,6 +62,30 @@ def families(tier):
     return out
 
 
+def extender_ring_layouts(tier):
+    """six genes round a ring (cutoff 3): gaps inside / at / beyond the cutoff, three anchoring genes (a) and three extender-only
+    genes (b) in every arrangement, the origin placed in every gap and inside the first gene - several cores that only the
+    extender genes connect, also across the origin"""
+    glen = W.GENE_LEN
+    L = 48
+    arrangements = [combo for combo in itertools.combinations(range(6), 3)]
+    for gaps in itertools.product((1, 3, 5), repeat=5):
+        closing = L - 6 * glen - sum(gaps)
+        if closing < 1:
+            continue
+        starts = [0]
+        for gap in gaps:
+            starts.append(starts[-1] + glen + gap)
+        origins = [starts[i] + glen + (list(gaps) + [closing])[i] // 2 for i in range(6)] + [1]
+        if tier == "quick":
+            origins = origins[::2]
+        for anchors in arrangements:
+            hits = {f"g{i}": ({"a": 7} if i in anchors else {"b": 7}) for i in range(6)}
+            for origin in origins:
+                genes = [[f"g{i}", enc(ring_loc((s - origin) % L, glen, L, 1 if i % 2 == 0 else -1))] for i, s in enumerate(starts)]
+                yield {"L": L, "circ": True, "genes": genes}, hits
+
+
 HITS_ABC = [{}, {"a": 7}, {"b": 7}, {"c": 7}, {"a": 7, "b": 7}, {"b": 7, "c": 7}, {"a": 7, "c": 7}]
 
 
@@ -98,6 +122,8 @@ def shards(tier):
     for circ in (False, True):
         for chunk in range(N_CHUNKS):
             out.append([40, circ, "superiors3", 4, chunk, N_CHUNKS, tier])
+    for chunk in range(N_CHUNKS):
+        out.append([48, True, "extenders-ring", 6, chunk, N_CHUNKS, tier])
     for L in lengths:
         for circ in (False, True):
             for fam, _, mode in families(tier):
@@ -358,6 +384,21 @@ def _merge_groups_through_extenders(groups, feats, sets, hits, extender, cutoff,
 def run_shard(shard):
     L, circ, fam, k, chunk, nchunks, tier = shard
     res = Result()
+    if fam == "extenders-ring":
+        rules_spec = [f for f in families(tier) if f[0] == "extenders"][0][1]
+        for index, (world, hits) in enumerate(extender_ring_layouts(tier)):
+            if index % nchunks != chunk:
+                continue
+            res.evals += 1
+            res.nontrivial += 1
+            fails = check_case(world, hits, rules_spec, res.buckets)
+            res.outcomes[("extenders-ring", tuple(sorted({c.split(":")[0] for c, _ in fails})))] += 1
+            if fails or res.evals % 2003 == 1:
+                case = {"world": world, "hits": hits, "family": "extenders"}
+                for clause, detail in fails:
+                    res.fail(case, clause, detail)
+                res.sample(case)
+        return res
     spec = [f for f in families(tier) if f[0] == fam][0]
     _, rules_spec, hit_mode = spec
     index = 0
